@@ -216,7 +216,7 @@ theorem Univ.sub {a fin : Node} (hc : a.cfg = fin.cfg) (hs : StoreLe a.store fin
   clean := ⟨by intro m hm; rw [hc]; exact h.clean.pps m (hs.pps.subset hm), by intro m hm; rw [hc]; exact h.clean.prepares m (hs.prepares.subset hm),
     by intro m hm; rw [hc]; exact h.clean.commits m (hs.commits.subset hm), by intro m hm; rw [hc]; exact h.clean.vcs m (hs.vcs.subset hm)⟩
 
-theorem blk_storeLe {e : Event} {a b : Node} {l : List Out} {g : List LEv} (h : Blk e a b l g) : StoreLe a.store b.store := by
+theorem blk_storeLe {e : Event} {spi0 : List Spi} {a b : Node} {l : List Out} {g : List LEv} (h : Blk e spi0 a b l g) : StoreLe a.store b.store := by
   cases h with
   | quiet _ hs _ => exact StoreLe.of_eq hs
   | log op _ => exact storeLe_apply _ op
@@ -228,7 +228,7 @@ theorem blk_storeLe {e : Event} {a b : Node} {l : List Out} {g : List LEv} (h : 
   | voteSend => exact StoreLe.refl _
   | voteStore vc => exact storeLe_apply a.store (.vc vc)
 
-theorem runs_storeLe {e : Event} {w w' : Term.W} {g : List LEv} (h : Runs e w w' g) : StoreLe w.n.store w'.n.store := by
+theorem runs_storeLe {e : Event} {spi0 : List Spi} {w w' : Term.W} {g : List LEv} (h : Runs e spi0 w w' g) : StoreLe w.n.store w'.n.store := by
   induction h with
   | refl => exact StoreLe.refl _
   | blk _ hb => exact blk_storeLe hb
